@@ -112,6 +112,7 @@ type SpecFn struct {
 	PNames []string
 	Ret    Sort
 	Rec    bool
+	Body   *SExp
 }
 
 type Prelude struct {
@@ -143,6 +144,9 @@ func loadPrelude(paths []string) (*Prelude, error) {
 				for _, pr := range e.List[2].List {
 					fn.PNames = append(fn.PNames, pr.List[0].Atom)
 					fn.Params = append(fn.Params, Sort(pr.List[1].String()))
+				}
+				if fn.Rec {
+					fn.Body = e.List[4]
 				}
 				p.Funcs[fn.Name] = fn
 			case "declare-fun":
@@ -181,4 +185,34 @@ func loadPrelude(paths []string) (*Prelude, error) {
 		}
 	}
 	return p, nil
+}
+
+// substitute returns the body with parameter atoms replaced by argument texts.
+func (s *SExp) substitute(sub map[string]string) string {
+	if !s.IsL {
+		if r, ok := sub[s.Atom]; ok {
+			return r
+		}
+		return s.Atom
+	}
+	var parts []string
+	for _, c := range s.List {
+		parts = append(parts, c.substitute(sub))
+	}
+	return "(" + strings.Join(parts, " ") + ")"
+}
+
+// findApps collects the applications of the named functions in e.
+func findApps(e *SExp, names map[string]*SpecFn, out map[string]*SExp) {
+	if !e.IsL {
+		return
+	}
+	if len(e.List) > 0 && !e.List[0].IsL {
+		if fn, ok := names[e.List[0].Atom]; ok && len(e.List) == len(fn.Params)+1 {
+			out[e.String()] = e
+		}
+	}
+	for _, c := range e.List {
+		findApps(c, names, out)
+	}
 }
